@@ -408,9 +408,38 @@ struct TypedObs<T: incremental::Value> {
     ob: Observer<T>,
     back: Rc<dyn Fn(&T) -> V>,
 }
-impl<T: incremental::Value> AnyObs for TypedObs<T> {
+/// Every read goes through BOTH public read paths: `try_get_value()` and the panicking shortcut `value()`.  They must
+/// agree (`value()` returns `v` iff `try_get_value()` is `Ok(v)`, and panics otherwise).  If `value()` hands out a value
+/// where `try_get_value()` refuses, the read shows THAT value (so the lifecycle / poisoning predicates see it); if it
+/// panics where `try_get_value()` answers, the read line is marked.
+fn read_both<T: incremental::Value + PartialEq>(ob: &Observer<T>) -> Result<T, incremental::ObserverError> {
+    let r = ob.try_get_value();
+    let saved = LAST_PANIC.with(|p| p.borrow().clone());
+    let v = catch_unwind(AssertUnwindSafe(|| ob.value()));
+    LAST_PANIC.with(|p| *p.borrow_mut() = saved);
+    match (r, v) {
+        (Ok(a), Ok(b)) => {
+            if a != b {
+                VALUE_MISMATCH.with(|m| m.set(true));
+            }
+            Ok(a)
+        }
+        (Err(_), Ok(b)) => Ok(b),
+        (Ok(a), Err(_)) => {
+            VALUE_MISMATCH.with(|m| m.set(true));
+            Ok(a)
+        }
+        (Err(e), Err(_)) => Err(e),
+    }
+}
+
+thread_local! {
+    static VALUE_MISMATCH: Cell<bool> = Cell::new(false);
+}
+
+impl<T: incremental::Value + PartialEq> AnyObs for TypedObs<T> {
     fn read(&self) -> Result<V, incremental::ObserverError> {
-        self.ob.try_get_value().map(|t| (self.back)(&t))
+        read_both(&self.ob).map(|t| (self.back)(&t))
     }
     fn disallow(&self) {
         self.ob.disallow_future_use()
@@ -424,7 +453,7 @@ enum Ob {
 impl Ob {
     fn try_get_value(&self) -> Result<V, incremental::ObserverError> {
         match self {
-            Ob::V(o) => o.try_get_value(),
+            Ob::V(o) => read_both(o),
             Ob::T(o) => o.read(),
         }
     }
@@ -1011,24 +1040,78 @@ fn merge_fn(p: [i64; 5], e: MergeElement<&i64, &i64>) -> Option<i64> {
     }
 }
 
+/// API variants of one operator (the type token of the history line is `<map type>[.<variant>]`; the Lean model
+/// ignores the token: all variants must behave exactly like `incr_filter_mapi` with the same user function).
+/// `""` = `incr_filter_mapi`; `mapi` = `incr_mapi` (only legal when the family never filters: `p[3] >= p[2]`, otherwise
+/// the plain call is used); `fmap` = `incr_filter_map`, `map` = `incr_map` on a map whose VALUES carry their key
+/// (`(k, v)`; equality of values is equality of `v`), so that the key-less closures can log the key like the model.
 macro_rules! fm_on {
-    ($ctx:expr, $input:expr, $conv:expr, $back:expr, $p:expr, $mi:expr, $me:expr) => {{
+    ($ctx:expr, $input:expr, $conv:expr, $back:expr, $p:expr, $mi:expr, $me:expr, $api:expr) => {{
         let a = $input.map($conv);
         register_typed($ctx, &a, $back);
         let (p, mi, me) = ($p, $mi, $me.clone());
-        let o = a.incr_filter_mapi(move |k: &i64, v: &i64| {
-            tick();
-            let r = fm_fn(p, *k, *v);
-            log(format!("inv M{}.fn@n{} ({},{})->{}", mi, me.get(), k, v, opt(r)));
-            r
-        });
+        let never_filters = p[3] >= p[2] || p[3] < 0;
+        let o = if $api == "mapi" && never_filters {
+            a.incr_mapi(move |k: &i64, v: &i64| {
+                tick();
+                let r = fm_fn(p, *k, *v);
+                log(format!("inv M{}.fn@n{} ({},{})->{}", mi, me.get(), k, v, opt(r)));
+                r.expect("verif-harness: family filters")
+            })
+        } else {
+            a.incr_filter_mapi(move |k: &i64, v: &i64| {
+                tick();
+                let r = fm_fn(p, *k, *v);
+                log(format!("inv M{}.fn@n{} ({},{})->{}", mi, me.get(), k, v, opt(r)));
+                r
+            })
+        };
         $me.set(o.verif_index());
         o.map($back)
     }};
 }
 
+macro_rules! fm_kv_on {
+    ($ctx:expr, $input:expr, $conv:expr, $backkv:expr, $back:expr, $p:expr, $mi:expr, $me:expr, $api:expr) => {{
+        let a = $input.map($conv);
+        register_typed($ctx, &a, $backkv);
+        let (p, mi, me) = ($p, $mi, $me.clone());
+        let never_filters = p[3] >= p[2] || p[3] < 0;
+        let o = if $api == "map" && never_filters {
+            a.incr_map(move |kv: &KV| {
+                tick();
+                let r = fm_fn(p, kv.0, kv.1);
+                log(format!("inv M{}.fn@n{} ({},{})->{}", mi, me.get(), kv.0, kv.1, opt(r)));
+                r.expect("verif-harness: family filters")
+            })
+        } else {
+            a.incr_filter_map(move |kv: &KV| {
+                tick();
+                let r = fm_fn(p, kv.0, kv.1);
+                log(format!("inv M{}.fn@n{} ({},{})->{}", mi, me.get(), kv.0, kv.1, opt(r)));
+                r
+            })
+        };
+        $me.set(o.verif_index());
+        o.map($back)
+    }};
+}
+
+/// a map value that carries its key; prints (in `verif_snapshot`) and compares like the bare value
+#[derive(Clone, PartialEq)]
+struct KV(i64, i64);
+impl fmt::Debug for KV {
+    fn fmt(&self, f: &mut fmt::Formatter<'_>) -> fmt::Result {
+        fmt::Debug::fmt(&self.1, f)
+    }
+}
+
+fn as_btree_kv(v: &V) -> BTreeMap<i64, KV> {
+    as_btree(v).into_iter().map(|(k, x)| (k, KV(k, x))).collect()
+}
+
 macro_rules! fold_on {
-    ($ctx:expr, $input:expr, $conv:expr, $back:expr, $p:expr, $mi:expr, $me:expr, $rev:expr, $upd:expr) => {{
+    ($ctx:expr, $input:expr, $conv:expr, $back:expr, $p:expr, $mi:expr, $me:expr, $rev:expr, $upd:expr, $api:expr) => {{
         let a = $input.map($conv);
         register_typed($ctx, &a, $back);
         let (p, mi) = ($p, $mi);
@@ -1045,21 +1128,33 @@ macro_rules! fold_on {
             log(format!("inv M{}.remove@n{} ({},{})->{}", mi, me2.get(), k, v, r));
             r
         };
-        let o = if $upd {
-            a.incr_unordered_fold_update(
+        let update = move |acc: i64, k: &i64, old: &i64, new: &i64| {
+            tick();
+            let r = acc - g_fn(p, *k, *old) + g_fn(p, *k, *new);
+            log(format!("inv M{}.update@n{} ({},{},{})->{}", mi, me3.get(), k, old, new, r));
+            r
+        };
+        // `cf` = the builder `ClosureFold::new_add_remove(..)[.update(..)].revert_to_init_when_empty(..)`,
+        // `cfn` = `ClosureFold::new().add(..).remove(..)…` handed to `incr_unordered_fold_with`; same behaviour required
+        let o = match ($api, $upd) {
+            ("cf", true) => a.incr_unordered_fold_with(
                 p[4],
-                add,
-                remove,
-                move |acc: i64, k: &i64, old: &i64, new: &i64| {
-                    tick();
-                    let r = acc - g_fn(p, *k, *old) + g_fn(p, *k, *new);
-                    log(format!("inv M{}.update@n{} ({},{},{})->{}", mi, me3.get(), k, old, new, r));
-                    r
-                },
-                $rev,
-            )
-        } else {
-            a.incr_unordered_fold(p[4], add, remove, $rev)
+                ClosureFold::new_add_remove(add, remove).update(update).revert_to_init_when_empty($rev),
+            ),
+            ("cf", false) => a.incr_unordered_fold_with(
+                p[4],
+                ClosureFold::new_add_remove(add, remove).revert_to_init_when_empty($rev),
+            ),
+            ("cfn", true) => a.incr_unordered_fold_with(
+                p[4],
+                ClosureFold::new().add(add).remove(remove).update(update).revert_to_init_when_empty($rev),
+            ),
+            ("cfn", false) => a.incr_unordered_fold_with(
+                p[4],
+                ClosureFold::new().add(add).remove(remove).revert_to_init_when_empty($rev),
+            ),
+            (_, true) => a.incr_unordered_fold_update(p[4], add, remove, update, $rev),
+            (_, false) => a.incr_unordered_fold(p[4], add, remove, $rev),
         };
         $me.set(o.verif_index());
         o.map(|r: &i64| V::Int(*r))
@@ -1076,19 +1171,27 @@ fn elab_mapop(ctx: &C, loc: &[usize], op: &MapOp) -> usize {
         MapOp::Fm(ty, m, x) => {
             let input = resolve(ctx, loc, x);
             let p = params(m);
-            match ty.as_str() {
-                "bt" => fm_on!(ctx, input, |v: &V| as_btree(v), back_bt, p, *m, me),
-                "rc" => fm_on!(ctx, input, |v: &V| Rc::new(as_btree(v)), back_rc, p, *m, me),
-                _ => fm_on!(ctx, input, |v: &V| as_btree(v).into_iter().collect::<OrdMap<i64, i64>>(), back_ord, p, *m, me),
+            let (ty, api) = ty.split_once('.').unwrap_or((ty.as_str(), ""));
+            let back_bt_kv = |m: &BTreeMap<i64, KV>| V::Map(Rc::new(m.iter().map(|(k, kv)| (*k, kv.1)).collect()));
+            let back_rc_kv = |m: &Rc<BTreeMap<i64, KV>>| V::Map(Rc::new(m.iter().map(|(k, kv)| (*k, kv.1)).collect()));
+            let back_ord_kv = |m: &OrdMap<i64, KV>| V::Map(Rc::new(m.iter().map(|(k, kv)| (*k, kv.1)).collect()));
+            match (ty, api) {
+                ("bt", "map") | ("bt", "fmap") => fm_kv_on!(ctx, input, |v: &V| as_btree_kv(v), back_bt_kv, back_bt, p, *m, me, api),
+                ("rc", "map") | ("rc", "fmap") => fm_kv_on!(ctx, input, |v: &V| Rc::new(as_btree_kv(v)), back_rc_kv, back_rc, p, *m, me, api),
+                (_, "map") | (_, "fmap") => fm_kv_on!(ctx, input, |v: &V| as_btree_kv(v).into_iter().collect::<OrdMap<i64, KV>>(), back_ord_kv, back_ord, p, *m, me, api),
+                ("bt", _) => fm_on!(ctx, input, |v: &V| as_btree(v), back_bt, p, *m, me, api),
+                ("rc", _) => fm_on!(ctx, input, |v: &V| Rc::new(as_btree(v)), back_rc, p, *m, me, api),
+                _ => fm_on!(ctx, input, |v: &V| as_btree(v).into_iter().collect::<OrdMap<i64, i64>>(), back_ord, p, *m, me, api),
             }
         }
         MapOp::Fold(ty, m, rev, upd, x) => {
             let input = resolve(ctx, loc, x);
             let p = params(m);
-            match ty.as_str() {
-                "bt" => fold_on!(ctx, input, |v: &V| as_btree(v), back_bt, p, *m, me, *rev, *upd),
-                "rc" => fold_on!(ctx, input, |v: &V| Rc::new(as_btree(v)), back_rc, p, *m, me, *rev, *upd),
-                _ => fold_on!(ctx, input, |v: &V| as_btree(v).into_iter().collect::<OrdMap<i64, i64>>(), back_ord, p, *m, me, *rev, *upd),
+            let (ty, api) = ty.split_once('.').unwrap_or((ty.as_str(), ""));
+            match ty {
+                "bt" => fold_on!(ctx, input, |v: &V| as_btree(v), back_bt, p, *m, me, *rev, *upd, api),
+                "rc" => fold_on!(ctx, input, |v: &V| Rc::new(as_btree(v)), back_rc, p, *m, me, *rev, *upd, api),
+                _ => fold_on!(ctx, input, |v: &V| as_btree(v).into_iter().collect::<OrdMap<i64, i64>>(), back_ord, p, *m, me, *rev, *upd, api),
             }
         }
         MapOp::Merge(ty, m, x, y) => {
@@ -1136,23 +1239,27 @@ fn elab_mapop(ctx: &C, loc: &[usize], op: &MapOp) -> usize {
             let (mi, me2) = (*m, me.clone());
             let a = input.map(|v: &V| as_btree(v).into_iter().collect::<OrdMap<i64, i64>>());
             register_typed(ctx, &a, back_ord);
-            let o = a.incr_partition_mapi(move |k: &i64, v: &i64| {
-                tick();
-                let r = if emod(k + v, p[2]) == p[3] { Either::Left(*v) } else { Either::Right(emod(v + 1, 7)) };
-                let s = match &r {
-                    Either::Left(a) => format!("L{}", a),
-                    Either::Right(b) => format!("R{}", b),
-                };
-                log(format!("inv M{}.fn@n{} ({},{})->{}", mi, me2.get(), k, v, s));
-                r
-            });
-            me.set(o.verif_index());
-            o.map(move |(l, r): &(OrdMap<i64, i64>, OrdMap<i64, i64>)| {
-                V::Pair(Rc::new((
-                    V::Map(Rc::new(l.iter().map(|(k, v)| (*k, *v)).collect())),
-                    V::Map(Rc::new(r.iter().map(|(k, v)| (*k, *v)).collect())),
-                )))
-            })
+            // (`incr_partition`, the predicate wrapper of this call, keeps `v` on both sides: the family's `+ 1` on the right
+            // side is not expressible through it and its node value is part of the compared snapshot, so it is not used)
+            {
+                let o = a.incr_partition_mapi(move |k: &i64, v: &i64| {
+                    tick();
+                    let r = if emod(k + v, p[2]) == p[3] { Either::Left(*v) } else { Either::Right(emod(v + 1, 7)) };
+                    let s = match &r {
+                        Either::Left(a) => format!("L{}", a),
+                        Either::Right(b) => format!("R{}", b),
+                    };
+                    log(format!("inv M{}.fn@n{} ({},{})->{}", mi, me2.get(), k, v, s));
+                    r
+                });
+                me.set(o.verif_index());
+                o.map(move |(l, r): &(OrdMap<i64, i64>, OrdMap<i64, i64>)| {
+                    V::Pair(Rc::new((
+                        V::Map(Rc::new(l.iter().map(|(k, v)| (*k, *v)).collect())),
+                        V::Map(Rc::new(r.iter().map(|(k, v)| (*k, *v)).collect())),
+                    )))
+                })
+            }
         }
     };
     register(ctx, &out)
@@ -1643,7 +1750,8 @@ pub fn run() {
                 })
                 .collect()
         };
-        writeln!(out, "{} read {}", ai, reads.join(" ")).unwrap();
+        let mism = if VALUE_MISMATCH.with(|m| m.replace(false)) { " value()-disagrees-with-try_get_value" } else { "" };
+        writeln!(out, "{} read {}{}", ai, reads.join(" "), mism).unwrap();
         let state = ctx.state.borrow().as_ref().cloned();
         if let Some(state) = state {
             // the hooks walk the representation: on a corrupted graph they may themselves hit an unwrap
